@@ -285,7 +285,8 @@ func (route *baseRoute) delDestination(index int, extendConfig baseCfgExtender) 
 		return fmt.Errorf("Invalid index %d", index)
 	}
 	conf.Dests()[index].Shutdown()
-	newDests := append(conf.Dests()[:index], conf.Dests()[index+1:]...)
+	// the full slice expression forces append to copy: concurrent Dispatch calls may still be iterating over the old slice
+	newDests := append(conf.Dests()[:index:index], conf.Dests()[index+1:]...)
 	newConf := extendConfig(baseConfig{*conf.Matcher(), newDests})
 	route.config.Store(newConf)
 	return nil
